@@ -105,6 +105,10 @@ pub struct Shared {
     pub j_full: bool,
     pub db_writes: usize,
     pub db_lens: Vec<usize>,
+    /// completion choices forced by the exhaustive schedule explorer (index into the sorted running set)
+    pub forced: Option<Vec<usize>>,
+    /// number of running commands at each completion request
+    pub branching: Vec<usize>,
     pub died_in_db: Option<(bool, bool)>,
     pub hazard: Option<String>,
     pub nsteps_total: usize,
@@ -144,6 +148,8 @@ impl Shared {
             j_full: false,
             db_writes: 0,
             db_lens: vec![],
+            forced: None,
+            branching: vec![],
             died_in_db: None,
             hazard: None,
             nsteps_total: 0,
@@ -295,7 +301,11 @@ impl Exec for Ex {
         }
         let mut ids: Vec<usize> = sh.running.iter().map(|r| r.uid).collect();
         ids.sort();
-        let pick = ids[sh.tape.below(ids.len())];
+        let pick = match &sh.forced {
+            Some(f) => ids[f.get(sh.branching.len()).copied().unwrap_or(0).min(ids.len() - 1)],
+            None => ids[sh.tape.below(ids.len())],
+        };
+        sh.branching.push(ids.len());
         let pos = sh.running.iter().position(|r| r.uid == pick).unwrap();
         let run = sh.running.remove(pos);
         let proj = sh.loaded.clone();
